@@ -1,5 +1,6 @@
 import Driver.Util
 import AwsVerif.Model.Codec
+import AwsVerif.Model.CodecAvx2
 /-! C05 driver: op language of `harness/codec.c` interpreted on `Model/Codec.lean`.
 The model describes the portable path; the harness runs every op through the portable build and
 through the vector build, so each result is printed once per build name with identical content
@@ -16,15 +17,21 @@ def rcName : Option Err → String
 def wDesc (off : Nat) (wr : List UInt8) : String :=
   if wr.isEmpty then "w=none" else s!"w={off}+{wr.length}"
 
-/-- lines for a call described by `Out`; `partialW`: the failure path may already have stored bytes -/
-def showOut (op : String) (o : Out) : List String :=
-  let per (b : String) : List String :=
-    match o.err with
-    | none => [s!"P {op} {b} rc=OK len={o.len} {wDesc o.off o.wr} out={hexOf o.wr}"]
-    | some e =>
-      [s!"P {op} {b} rc={e.name} len={o.len}"] ++
-      (if b == "portable" then [s!"W {op} {b} {wDesc o.off o.wr} out={hexOf o.wr}"] else [])
-  (builds.map per).flatten ++ [s!"P {op} same=1"]
+def outLines (op b : String) (o : Out) : List String :=
+  match o.err with
+  | none => [s!"P {op} {b} rc=OK len={o.len} {wDesc o.off o.wr} out={hexOf o.wr}"]
+  | some e => [s!"P {op} {b} rc={e.name} len={o.len}", s!"W {op} {b} {wDesc o.off o.wr} out={hexOf o.wr}"]
+
+/-- property-level agreement of two calls: verdict, `len`, and on success the stored bytes -/
+def sameOut (a b : Out) : Bool :=
+  a.err == b.err && a.len == b.len && (a.err.isSome || (a.off == b.off && a.wr == b.wr))
+
+/-- lines for a call: `portable` from the model of encoding.c, `vector` from the model of the path taken
+when AVX2 is available (for hex: the same function); the failure path may already have stored bytes (W line) -/
+def showOut2 (op : String) (p v : Out) : List String :=
+  outLines op "portable" p ++ outLines op "vector" v ++ [s!"P {op} same={if sameOut p v then 1 else 0}"]
+
+def showOut (op : String) (o : Out) : List String := showOut2 op o o
 
 def showLen (op : String) (r : Except Err Nat) : List String :=
   builds.map (fun b => match r with
@@ -64,10 +71,10 @@ def step (s : St) (t : List String) : St × List String :=
   let bad := (s, ["bad-op"])
   match t with
   | ["b64enc", x, l, c] => match parseHex? x, parseSize? l, parseSize? c with
-    | some x, some l, some c => if c > 16777216 then bad else (s, showOut "b64enc" (base64Encode x l c))
+    | some x, some l, some c => if c > 16777216 then bad else (s, showOut2 "b64enc" (base64Encode x l c) (AwsVerif.CodecAvx2.base64EncodeAvx2 x l c))
     | _, _, _ => bad
   | ["b64dec", x, l, c] => match parseHex? x, parseSize? l, parseSize? c with
-    | some x, some l, some c => if c > 16777216 then bad else (s, showOut "b64dec" (base64Decode x l c))
+    | some x, some l, some c => if c > 16777216 then bad else (s, showOut2 "b64dec" (base64Decode x l c) (AwsVerif.CodecAvx2.base64DecodeAvx2 x l c))
     | _, _, _ => bad
   | ["hexenc", x, l, c] => match parseHex? x, parseSize? l, parseSize? c with
     | some x, some l, some c => if c > 16777216 then bad else (s, showOut "hexenc" (hexEncode x l c))
